@@ -53,8 +53,13 @@ CFG = {
                   "exclusion; every reachable trace is linearizable w.r.t. the sequential specification with "
                   "linearization point = Acquire (hence every artifact is one snapshot, not older than any update "
                   "completed before its invocation); without the Artifact lock a mixed snapshot is reachable; the "
-                  "history checker linb decides linearizability. Real concurrent runs (1-8 goroutines, windows of "
-                  "<= 12 calls) against the real Instance are judged by the verified checker on every run",
+                  "history checker linb decides linearizability; responses are values (a completed call keeps its "
+                  "response in every extension of the run). Real concurrent runs (1-8 goroutines, windows of "
+                  "<= 12 calls) against the real Instance are judged by the verified checker on every run; every "
+                  "returned artifact / ParameterData slice is retained and read again later (end of window, after "
+                  "later updates, by a slow consumer during updates) and must still show the value it showed at "
+                  "response time; the harness-defined nodes count clients inside their Process (mutual exclusion "
+                  "observed directly)",
     "level_note": "The theorems are about the lock-level model parametrised by the generated lock facts (a syntactic "
                   "discipline: Lock first, defer Unlock next, nothing shared touched before, no goroutines/closures, "
                   "callees do not touch the mutex) - they do not cover the Go memory model. Data races and crashes of the "
@@ -66,19 +71,25 @@ CFG = {
                  "facts (T) + vm_compute judgement of recorded concurrent histories (H) + race detector sampling",
     "design_ref": "DESIGN.md §4 C13",
     "n_quick": 500, "n_thorough": 20000, "search_n": 2400,
-    "rule": "windows of one epoch = one Instance (3 fixed + random graph shapes: 4-6 parameters of types int/float64/"
-            "string/bool; 2-4 text producers listing 2-5 parameters through shared and two-level join nodes, some "
-            "parameters listed twice through different paths) and 1-8 client goroutines; per window <= 12 calls "
+    "rule": "windows of one epoch = one Instance (4 fixed + random graph shapes: 4-6 parameters of types int/float64/"
+            "string/bool/File/Value[[]int] (slice payloads whose length depends on the value: equal and smaller "
+            "re-uploads); 2-5 producers: text producers listing 2-5 parameters through shared and two-level join "
+            "nodes, some parameters listed twice through different paths, basics.Binary on File parameters and a "
+            "slice-keeping artifact on []int parameters) and 1-8 client goroutines; every slice parameter is "
+            "re-uploaded once and read at epoch start (retained set); per window <= 12 calls "
             "(<= 5 update-type: 1/8 malformed) drawn from the seed with reader/writer/mixed roles, released together, "
             "stamps from one atomic counter, quiescence + full parameter/version read between windows; jitter "
             "(Gosched + <= 8 us busy wait) between input reads inside the harness-defined nodes; 0-2 unlocked "
-            "ModelVersion() reads and 0-1 Schema() call per window; distinct by recorded history; non-trivial = an "
+            "ModelVersion() reads, 0-1 Schema() call and 0-2 slow re-reads of retained responses per window; all "
+            "responses of the window and <= 8 retained slice-backed responses are re-read at the next quiescent "
+            "point; distinct by recorded history; non-trivial = an "
             "update overlaps in time with a read/artifact call of another thread",
     "trusted": ["tools/lockfacts (go/parser based, purely syntactic extraction of the lock discipline of every method of "
                 "graph.Instance; receiver fields only - state behind nodes/parameters is reached only through calls made "
                 "inside the critical section)",
                 "the harness's recording: stamps taken immediately before/after the method call from one atomic counter; "
-                "decoding of artifact text / parameter JSON to numbers",
+                "decoding of artifact text / bytes / parameter JSON to numbers; the re-read of retained responses and the "
+                "per-node in-flight counters are harness code (prop_ok only compares what they report)",
                 "Go race detector (sampling; only for the three entry points the property names)"],
     "modelled": ["sync.Mutex as an atomic Acquire (enabled when free) / Release", "each parameter read/write and the "
                  "version load/store as one atomic step (the Go memory model is not modelled)",
